@@ -6,7 +6,7 @@ import ringcorr
 from vlib import g_str, g_list
 
 GEN = ['grammar', 'elements']
-COQ_DEPS = ['Ring/PegCorr.vo', 'Graph/Reaction.vo', 'Gen/RingGrammar.vo', 'Gen/Elements.vo']
+COQ_DEPS = ['Ring/PegCorr.vo', 'Ring/Peg_cert.vo', 'Graph/Reaction.vo', 'Gen/RingGrammar.vo', 'Gen/Elements.vo']
 MOLS = ['C', 'CC', 'CCC', 'C=C', 'C#C', 'CO', 'C=O', 'CCO', '[CH3]', '[CH2]C', '[CH2][CH2]', 'C[CH]C', '[OH]', 'OO', 'C1CC1', 'CC=C', 'C[O]',
         '[CH2]C=C', 'N', 'CN', '[CH2+]C', 'C[O-]', 'O=C=O', 'CC(C)C', '[CH]=C', 'C=CC=C', 'c1ccccc1', 'C[Pt]']
 
